@@ -19,7 +19,21 @@ class newcommand(Command):
         self.parse(tex)
         a = self.attributes
         args = (a['name'], a['nargs'], a['definition'])
-        kwargs = {'opt':a['opt']}
+        opt = a['opt']
+        # The default is delimited by ']', so TeX removes the braces of
+        # a default that consists of exactly one group
+        if opt and len(opt) > 1 and opt[0].catcode == opt[0].CC_BGROUP:
+            level = 0
+            for i, t in enumerate(opt):
+                if t.catcode == t.CC_BGROUP:
+                    level += 1
+                elif t.catcode == t.CC_EGROUP:
+                    level -= 1
+                if level == 0:
+                    break
+            if level == 0 and i == len(opt) - 1:
+                opt = opt[1:-1]
+        kwargs = {'opt':opt}
         deflog.debug('command %s %s %s', *args)
         self.ownerDocument.context.newcommand(*args, **kwargs)
 
